@@ -68,10 +68,14 @@ impl PatternLinter for ModalOf {
     }
 
     fn match_to_lint(&self, matched_toks: &[Token], source_chars: &[char]) -> Option<Lint> {
-        let modal_index = match matched_toks.len() {
+        // `then_whitespace()` matches one OR MORE whitespace tokens (`should \t of`, or a line break
+        // followed by an indented line), so count the words of the match, not its tokens.
+        let words: Vec<usize> = matched_toks.iter_word_indices().collect();
+
+        let modal_word = match words.len() {
             // Without context, always an error from the start
-            3 => 0,
-            5 => {
+            2 => 0,
+            3 => {
                 // False positives: modal _ of _ course / adj. _ might _ of / art. _ might _ of
                 let w3_text = matched_toks
                     .last()
@@ -89,14 +93,15 @@ impl PatternLinter for ModalOf {
                     return None;
                 }
                 // not a false positive, skip context before
-                2
+                1
             }
             // False positive: <word> _ might _ of _ course
-            7 => return None,
-            _ => unreachable!(),
+            _ => return None,
         };
+        let modal_index = words[modal_word];
+        let of_index = words[modal_word + 1];
 
-        let span_modal_of = matched_toks[modal_index..modal_index + 3].span().unwrap();
+        let span_modal_of = matched_toks[modal_index..=of_index].span().unwrap();
 
         let modal_have = format!(
             "{} have",
